@@ -184,6 +184,7 @@ func run(repo, dir string, seed uint64, nunits, nvalues int, cfg idlgen.Config, 
 	}
 	fcfg := cfg
 	fcfg.NoTypedefContainers = true // fastgo dereferences nil on typedef'd containers, see docs/BATCH-notes.md
+	fcfg.BinaryMapKeys = false       // fastgo: FastRead of map<binary,…> does not compile
 	fcfg.NoGoNS = false              // fastgo's local variables (b, p, x, l, …) shadow a package of that name
 	units = append(units, batch.Unit{Prog: idlgen.Generate(r, fcfg), Backend: "fastgo", Recurse: true, Tag: "fastgo"})
 
